@@ -40,8 +40,9 @@ def trouble_values(c):
                 ("normalized", D(100).normalize()), ("huge-exponent", D("1E+30")), ("plain", D("1.50")), ("nan", D("NaN")), ("snan", D("sNaN")),
                 ("infinity", D("Infinity")), ("negative-infinity", D("-Infinity")), ("29-digits", D("12345678901234567890123456789")),
                 ("30-digits-fraction", D("123456789012345678901234567890.25")), ("negative-zero-scaled", D("-0.00")), ("small-negative", D("-0.000001"))]
-        if c.params is not None:
-            vals = [(k, v) for k, v in vals]
+        # amounts handed over as float / int / tuple (Decimal's other constructors): the non-finite ones must be refused too
+        vals += [("float-nan", float("nan")), ("float-infinity", float("inf")), ("float-negative-infinity", float("-inf")), ("float-tiny", 1e-7), ("float-huge", 1e30),
+                 ("float-plain", 0.1), ("int", 12), ("tuple-infinity", (0, (0,), "F")), ("tuple-nan", (1, (), "n")), ("tuple-plain", (1, (1, 5, 0), -2))]
         return vals
     if t in ("String", "NagString"):
         n = c.params
@@ -51,6 +52,9 @@ def trouble_values(c):
                      ("value-spelling-entities", "&amp;lt; &amp;#38; &amp;amp; &amp;nbsp;"), ("markup-at-limit", ("<&" * (n if n is not None else 20))[: (n if n is not None else 40)])):
             v = U._cut(s, n)
             out.append((k, v))
+        if n is not None and n >= 3:
+            # over the limit only through white space at either end (what a padded fixed-width field looks like)
+            out += [("padded-over-limit", "x" * (n - 2) + "    "), ("padded-over-limit", "  " + "x" * n), ("padded-over-limit", "x" * n + "\t"), ("padded-over-limit", "x" * n + "\u00a0")]
         return out
     if t == "OneOf":
         own = [str(x) for x in c.params]
@@ -236,7 +240,7 @@ def check_value(t, cl, cls, c, vclass, value, setter=None):
             t.fail(f"{sigbase}|{fname}|wire-not-well-formed", dict(case, form=fname), f"{e}: {data[-300:]!r}")
             continue
         got = [(tag, R.unescape(d)) for tag, d in leaves(st, [])]
-        exp = [(p.rsplit("/", 1)[1], txt.strip()) for p, txt in found]
+        exp = [(p.rsplit("/", 1)[1], txt.strip(" \t\r\n")) for p, txt in found]
         if got != exp:
             diff = next(((a, b) for a, b in zip(got, exp) if a != b), (len(got), len(exp)))
             t.fail(f"{sigbase}|{fname}|data-altered-on-the-wire", dict(case, form=fname), f"{diff}")
@@ -323,8 +327,8 @@ def run(ctx):
     cov = {
         "evaluations": tally.counts.get("evaluations", 0),
         "distinct_nontrivial": tally.counts.get("values", 0),
-        "rule": "every class x every data element x trouble values of its type (Decimal: zeros, +/- exponents, normalize(), NaN, sNaN, +-Infinity, 29 and 30 significant "
-        "digits; Integer: 0, -1, +-limit, True; String: markup, non-ASCII, CDATA delimiters, entity text, '&' followed by a word and ';', values spelling entities, at the limit; DateTime/Time: 5 zones with sub-ms parts and carries; "
+        "rule": "every class x every data element x trouble values of its type (Decimal: zeros, +/- exponents, normalize(), NaN, sNaN, +-Infinity (as Decimal, float and tuple), floats, 29 and 30 significant "
+        "digits; Integer: 0, -1, +-limit, True; String: markup, non-ASCII, CDATA delimiters, entity text, '&' followed by a word and ';', values spelling entities, at the limit, over it through leading / trailing white space; DateTime/Time: 5 zones with sub-ms parts and carries; "
         "Bool; every enumeration token, and 8 tokens of other enumerations - accepted there first - which must be refused) set by keyword on the smallest instance; leaf texts of to_etree() checked against the lexical rule, then all 6 wire forms read by the "
         "strict reference reader (well-formed, entities only, same data); ElementList classes: invalid members added through append/insert/extend/+= must be refused when written; "
         "distinct_nontrivial = (class, element, value) triples",
